@@ -7,11 +7,14 @@ Two dialects, both emitting terms generic over the classes Num (Base/Num.v) and 
 * component dialect (MMA.mmasub): every numpy operation in mmasub is elementwise, so each array variable is read
   as its j-th (or (i,j)-th) component and the statements become scalar formulas.  Kinds track the numpy shapes
   (S scalar option, V per variable j, M per response i and variable j, R per response i) to validate broadcasting.
-  The only reduction (np.dot(P, 1/shift)) is emitted at row level.  Local names are resolved by substitution;
-  the names in CUTS are re-bound to fresh symbols after their definition has been emitted, which gives one small
-  definition per named quantity of the algorithm (shift, low, upp, alfa, beta, P, Q, rhs ...).
+  The only reduction (np.dot(P, 1/shift)) is emitted at row level with its operands as component definitions.
 * vector dialect (subsolv, residual): expressions are typed S (scalar), V (vector), M (matrix = list of rows),
-  N (length) and emitted with map / vmap2 / vmap3 / dot / matvec / vecmat / lmin / lmax.
+  N (length), I (integer literal) and emitted with map / vmap2 / vmap3 / dot / matvec / vecmat / lmin / lmax.
+
+Local names never matter: locals are resolved by substitution (SSA), so renaming a local or reordering independent
+statements gives the same generated terms.  Only interface names are used as symbols: the parameters of mmasub, subsolv
+and residual, the attributes of the MMA object (self.low, self.upp, self.offset, self.dx, ...), and role names derived
+from the position of a local in the `residual(...)` call, the `return` statement and the line-search updates.
 
 Decimal literals are read as the rationals they denote (1.001 -> 1001/1000, 1e-5 -> 1/100000).
 """
@@ -24,6 +27,13 @@ from py2coq import Unsupported, parse_file, find_class, find_func
 class Val:
     def __init__(self, text, kind, syms=()):
         self.text, self.kind, self.syms = text, kind, frozenset(syms)
+
+
+class Poison:
+    """a local whose defining expression is outside the dialect: an error only if it is used"""
+
+    def __init__(self, why):
+        self.why = why
 
 
 def lit(value):
@@ -50,6 +60,10 @@ def is_self_attr(n, attr=None):
         (attr is None or n.attr == attr)
 
 
+def is_doc(s):
+    return isinstance(s, ast.Expr) and isinstance(s.value, ast.Constant) and isinstance(s.value.value, str)
+
+
 # ======================================================================================= component dialect
 JOIN = {}
 for a, b, r in (('S', 'S', 'S'), ('S', 'V', 'V'), ('V', 'V', 'V'), ('V', 'M', 'M'), ('S', 'M', 'M'), ('M', 'M', 'M'),
@@ -60,7 +74,7 @@ for a, b, r in (('S', 'S', 'S'), ('S', 'V', 'V'), ('V', 'V', 'V'), ('V', 'M', 'M
 
 class CompEmitter:
     def __init__(self, env):
-        self.env = dict(env)     # name or 'self.attr' -> Val
+        self.env = dict(env)     # name or 'self.attr' -> Val | Poison
 
     def fail(self, n, why=''):
         raise Unsupported(f'T-real(component): unsupported {type(n).__name__} {why}: {ast.unparse(n)[:140]}')
@@ -77,18 +91,21 @@ class CompEmitter:
         s = frozenset().union(*[v.syms for v in vals]) if vals else frozenset()
         return Val(fmt.format(*[v.text for v in vals]), kind or self.join(n, *vals), s)
 
+    def lookup(self, n, key):
+        if key in self.env:
+            v = self.env[key]
+            if isinstance(v, Poison):
+                raise Unsupported(f'{key} is used but its definition is outside the dialect: {v.why}')
+            return v
+        self.fail(n, 'unbound name')
+
     def tr(self, n):
         if isinstance(n, ast.Constant):
             return Val(lit(n.value), 'S')
         if isinstance(n, ast.Name):
-            if n.id in self.env:
-                return self.env[n.id]
-            self.fail(n, 'unbound name')
+            return self.lookup(n, n.id)
         if isinstance(n, ast.Attribute):
-            key = ast.unparse(n)
-            if key in self.env:
-                return self.env[key]
-            self.fail(n, 'attribute')
+            return self.lookup(n, ast.unparse(n))
         if isinstance(n, ast.UnaryOp):
             a = self.tr(n.operand)
             if isinstance(n.op, ast.USub):
@@ -142,7 +159,7 @@ class CompEmitter:
 
 # canonical parameter order of the generated component definitions
 ORDER = ['asyinit', 'asyincr', 'asydecr', 'asybound', 'albefa', 'move', 'xval', 'xmin', 'xmax', 'xold1', 'xold2',
-         'offset', 'dx', 'shift', 'low', 'upp', 'dx2', 'dg', 'dg_plus', 'dg_min', 'P', 'Q', 'g', 'rhs', 'alfa', 'beta', 'b']
+         'offset', 'dx', 'low', 'upp', 'dg', 'g']
 
 
 def cdef(name, val):
@@ -175,6 +192,13 @@ def assigned_attrs(func):
     return out
 
 
+class RowTerm:
+    """a per-response (row level) expression: text over list parameters op1, op2, ... and per-response scalars"""
+
+    def __init__(self, text, ops, rsyms, skip=0):
+        self.text, self.ops, self.rsyms, self.skip = text, ops, rsyms, skip
+
+
 def gen_mmasub(cls, subsolv_fn, out):
     f = find_func(cls, 'mmasub')
     argn = [a.arg for a in f.args.args]
@@ -199,61 +223,77 @@ def gen_mmasub(cls, subsolv_fn, out):
                 s.targets[0].attr in ('dx', 'offset', 'low', 'upp', 'xold1', 'xold2'):
             if ast.unparse(s.value) != 'None':
                 raise Unsupported(f'__init__: self.{s.targets[0].attr} = {ast.unparse(s.value)}')
-    env = {'xval': sym('xval', 'V'), 'g': sym('g', 'R'), 'dg': sym('dg', 'M')}
+    env0 = {'xval': sym('xval', 'V'), 'g': sym('g', 'R'), 'dg': sym('dg', 'M')}
     for a in ('asyinit', 'asyincr', 'asydecr', 'asybound', 'albefa'):
-        env['self.' + a] = sym(a, 'S')
+        env0['self.' + a] = sym(a, 'S')
     # self.move is a scalar or a per-variable array: per component it is the component's move limit
     for a in ('move', 'xmin', 'xmax', 'xold1', 'xold2'):
-        env['self.' + a] = sym(a, 'V')
-    em = CompEmitter(env)
-    CUTS = {'shift': 'V', 'self.low': 'V', 'self.upp': 'V', 'alfa': 'V', 'beta': 'V', 'dg_plus': 'M', 'dg_min': 'M',
-            'dx2': 'V'}
+        env0['self.' + a] = sym(a, 'V')
     emitted = {}
-    versions = []
-    state = dict(seen_call=False, ret=None, hist=None, args=None)
+    sub_params = [a.arg for a in subsolv_fn.args.args]
+    result = dict(forks=[], versions=[])
 
-    def emit(name, val):
+    def emit(name, text):
         if name in emitted:
-            raise Unsupported(f'{name} defined twice')
-        emitted[name] = val
-        out.append(cdef(name, val))
+            if emitted[name] != text:
+                raise Unsupported(f'{name} defined twice with different terms')
+            return
+        emitted[name] = text
+        out.append(text)
 
-    def assign(target, val):
-        key = ast.unparse(target)
-        cname = key.replace('self.', '')
-        if key in CUTS:
-            if val.kind != CUTS[key]:
-                raise Unsupported(f'{key} has kind {val.kind}, expected {CUTS[key]}')
-            emit('gen_' + cname, val)
-            em.env[key] = sym(cname, CUTS[key])
-        else:
-            em.env[key] = val
+    def bind(em, target, node):
+        """local assignment: translate now, poison when outside the dialect"""
+        try:
+            em.env[target] = em.tr(node)
+        except Unsupported as e:
+            em.env[target] = Poison(str(e))
 
-    def do_block(stmts, masked_ok=False):
-        for s in stmts:
-            if isinstance(s, ast.Expr) and isinstance(s.value, ast.Constant) and isinstance(s.value.value, str):
+    def row_term(em, n, ops):
+        """row-level translation of an expression containing np.dot(M, V)"""
+        if isinstance(n, ast.BinOp) and type(n.op) in (ast.Add, ast.Sub):
+            a, b = row_term(em, n.left, ops), row_term(em, n.right, ops)
+            return RowTerm(f'({BIN[type(n.op)]} {a.text} {b.text})', ops, a.rsyms | b.rsyms)
+        if isinstance(n, ast.Call) and fname(n) == 'np.dot' and len(n.args) == 2 and not n.keywords:
+            m, v = em.tr(n.args[0]), em.tr(n.args[1])
+            if m.kind != 'M' or v.kind != 'V':
+                raise Unsupported('np.dot operands must be a matrix and a vector: ' + ast.unparse(n))
+            ops.append(m)
+            ops.append(v)
+            return RowTerm(f'(dot op{len(ops) - 1} op{len(ops)})', ops, frozenset())
+        v = em.tr(n)
+        if v.kind != 'R' or v.text not in v.syms:
+            raise Unsupported('row-level operand: ' + ast.unparse(n))
+        return RowTerm(v.text, ops, v.syms)
+
+    def has_dot(n):
+        return any(isinstance(c, ast.Call) and fname(c) == 'np.dot' for c in ast.walk(n))
+
+    def do_block(em, stmts, st, tag=None, masked_ok=False):
+        for idx, s in enumerate(stmts):
+            if is_doc(s):
                 continue
             # ---- if self.X is None: self.X = expr      (lazy initialisation)
             if isinstance(s, ast.If) and isinstance(s.test, ast.Compare) and len(s.test.ops) == 1 and \
                     isinstance(s.test.ops[0], ast.Is) and ast.unparse(s.test.comparators[0]) == 'None' and \
                     is_self_attr(s.test.left) and s.test.left.attr in ('dx', 'offset'):
                 a = s.test.left.attr
-                if s.orelse or len(s.body) != 1 or not isinstance(s.body[0], ast.Assign) or \
+                if tag or s.orelse or len(s.body) != 1 or not isinstance(s.body[0], ast.Assign) or \
                         ast.unparse(s.body[0].targets[0]) != 'self.' + a:
                     raise Unsupported('lazy initialisation of self.' + a)
-                emit(f'gen_{a}_init', em.tr(s.body[0].value))
+                emit(f'gen_{a}_init', cdef(f'gen_{a}_init', em.tr(s.body[0].value)))
                 em.env['self.' + a] = sym(a, 'V')
                 continue
             # ---- if self.xold1 is not None and self.xold2 is not None:   (asymptote adaptation)
             if isinstance(s, ast.If) and ast.unparse(s.test) == 'self.xold1 is not None and self.xold2 is not None':
-                if s.orelse or 'self.offset' not in em.env:
+                if tag or s.orelse or 'self.offset' not in em.env:
                     raise Unsupported('asymptote adaptation block')
-                do_block(s.body, masked_ok=True)
-                emit('gen_offset_adapt', em.env['self.offset'])
-                em.env['self.offset'] = sym('offset', 'V')
-                for k in list(em.env):
-                    if k not in env and not k.startswith('self.'):
-                        del em.env[k]      # locals of the conditional block are not visible afterwards
+                inner = CompEmitter(em.env)
+                do_block(inner, s.body, st, masked_ok=True)
+                for k, v in inner.env.items():
+                    if k.startswith('self.') and k != 'self.offset' and em.env.get(k) is not v:
+                        raise Unsupported(f'adaptation block assigns {k}')
+                emit('gen_offset_adapt', cdef('gen_offset_adapt', inner.lookup(s, 'self.offset')))
+                em.env['self.offset'] = sym('offset', 'V')     # locals of the conditional block are dropped
                 continue
             # ---- self.offset[mask] *= c
             if masked_ok and isinstance(s, ast.AugAssign) and isinstance(s.target, ast.Subscript) and \
@@ -261,15 +301,17 @@ def gen_mmasub(cls, subsolv_fn, out):
                 mask = em.tr(s.target.slice)
                 if mask.kind != 'BV':
                     raise Unsupported('mask kind ' + mask.kind)
-                old = em.env['self.offset']
+                old = em.lookup(s, 'self.offset')
                 c = em.tr(s.value)
                 if c.kind != 'S':
                     raise Unsupported('masked update by a non-scalar')
                 em.env['self.offset'] = Val(f'(if {mask.text} then (nmul {old.text} {c.text}) else {old.text})', 'V',
                                             mask.syms | old.syms | c.syms)
                 continue
-            # ---- MMA version dispatch
+            # ---- MMA version dispatch: the rest of the function is translated once per version
             if isinstance(s, ast.If) and isinstance(s.test, ast.Compare) and isinstance(s.test.ops[0], ast.In):
+                if tag:
+                    raise Unsupported('nested version dispatch')
                 node = s
                 while True:
                     t = node.test
@@ -277,20 +319,20 @@ def gen_mmasub(cls, subsolv_fn, out):
                             isinstance(t.left, ast.Constant) and isinstance(t.left.value, str) and
                             ast.unparse(t.comparators[0]) == 'self.mmaversion'):
                         raise Unsupported('version test ' + ast.unparse(t))
-                    tag = t.left.value
-                    versions.append(tag)
-                    saved = dict(em.env)
-                    for st in node.body:
-                        if not (isinstance(st, ast.Assign) and len(st.targets) == 1 and isinstance(st.targets[0], ast.Name)
-                                and st.targets[0].id in ('P', 'Q')):
-                            raise Unsupported('version branch statement ' + ast.unparse(st))
-                        v = em.tr(st.value)
-                        if v.kind != 'M':
-                            raise Unsupported('P/Q kind')
-                        emit(f'gen_{st.targets[0].id}_{tag}', v)
-                    if sorted(st.targets[0].id for st in node.body) != ['P', 'Q']:
-                        raise Unsupported('version branch must assign P and Q')
-                    em.env = saved
+                    vt = t.left.value
+                    if not vt.isalnum():
+                        raise Unsupported('version tag ' + vt)
+                    result['versions'].append(vt)
+                    fork = CompEmitter(em.env)
+                    for b in node.body:
+                        if not (isinstance(b, ast.Assign) and len(b.targets) == 1 and isinstance(b.targets[0], ast.Name)):
+                            raise Unsupported('version branch statement ' + ast.unparse(b))
+                        bind(fork, b.targets[0].id, b.value)
+                    fst = dict(seen_call=False, hist=False, ret=None)
+                    do_block(fork, stmts[idx + 1:], fst, tag=vt)
+                    if not (fst['seen_call'] and fst['hist'] and fst['ret']):
+                        raise Unsupported(f'version {vt}: subsolv call / history update / return not found')
+                    result['forks'].append(fst)
                     if len(node.orelse) == 1 and isinstance(node.orelse[0], ast.If):
                         node = node.orelse[0]
                         continue
@@ -298,140 +340,140 @@ def gen_mmasub(cls, subsolv_fn, out):
                             ast.unparse(node.orelse[0].exc).startswith('ValueError(')):
                         raise Unsupported('version dispatch must end in raise ValueError')
                     break
-                em.env['P'] = sym('P', 'M')
-                em.env['Q'] = sym('Q', 'M')
-                continue
-            # ---- rhs = np.dot(P, 1 / shift) + np.dot(Q, 1 / shift) - g      (row level)
-            if isinstance(s, ast.Assign) and ast.unparse(s.targets[0]) == 'rhs':
-                out.append(row_def('gen_rhs_row', s.value, em))
-                em.env['rhs'] = sym('rhs', 'R')
-                continue
-            if isinstance(s, ast.Assign) and ast.unparse(s.targets[0]) == 'b':
-                v = s.value
-                if not (isinstance(v, ast.Subscript) and ast.unparse(v.value) == 'rhs' and ast.unparse(v.slice) == '1:'):
-                    raise Unsupported('b = ' + ast.unparse(v))
-                out.append('  Definition gen_b (rhs : list K) : list K := skipn 1 rhs.\n')
-                em.env['b'] = sym('b', 'R')
-                continue
+                return
             # ---- the subproblem solve
             if isinstance(s, ast.Assign) and isinstance(s.value, ast.Call) and fname(s.value) == 'subsolv':
-                if state['seen_call']:
-                    raise Unsupported('second subsolv call')
-                state['seen_call'] = True
-                params = [a.arg for a in subsolv_fn.args.args]
+                if st['seen_call'] or not tag:
+                    raise Unsupported('subsolv call outside a version branch / twice')
+                st['seen_call'] = True
                 call = s.value
-                bound = dict(zip(params, call.args))
+                bound = dict(zip(sub_params, call.args))
                 for kw in call.keywords:
                     bound[kw.arg] = kw.value
                 binding = []
-                for p in ('low', 'upp', 'alfa', 'beta', 'P', 'Q', 'b', 'x0'):
+                for p in ('low', 'upp', 'x0'):
+                    v = em.tr(bound[p]) if p in bound else None
+                    if v is None or len(v.syms) != 1 or v.text not in v.syms:
+                        raise Unsupported(f'subsolv argument {p} is not a plain quantity')
+                    binding.append((p, v.text))
+                st['binding'] = binding
+                for p, kind in (('alfa', 'V'), ('beta', 'V'), ('P', 'M'), ('Q', 'M')):
                     if p not in bound:
                         raise Unsupported(f'subsolv argument {p} missing')
                     v = em.tr(bound[p])
-                    if len(v.syms) != 1 or v.text not in v.syms:
-                        raise Unsupported(f'subsolv argument {p} is not a plain quantity: {v.text}')
-                    binding.append((p, v.text))
-                state['args'] = binding
+                    if v.kind != kind:
+                        raise Unsupported(f'subsolv argument {p} has kind {v.kind}')
+                    nm = f'gen_arg_{p}' + (f'_{tag}' if kind == 'M' else '')
+                    emit(nm, cdef(nm, v))
+                if 'b' not in bound or not isinstance(bound['b'], ast.Name):
+                    raise Unsupported('subsolv argument b')
+                bv = em.env.get(bound['b'].id)
+                if not isinstance(bv, RowTerm) or bv.skip != 1:
+                    raise Unsupported('subsolv argument b must be the row-level right-hand side without its first entry')
+                for k, opv in enumerate(bv.ops):
+                    nm = f'gen_rhs_op{k + 1}_{tag}'
+                    emit(nm, cdef(nm, opv))
+                rs = [r for r in ORDER if r in bv.rsyms]
+                if set(rs) != set(bv.rsyms):
+                    raise Unsupported('row-level symbols')
+                params = ''.join(f' (op{k + 1} : list K)' for k in range(len(bv.ops))) + ''.join(f' ({r} : K)' for r in rs)
+                emit('gen_rhs_row', f'  Definition gen_rhs_row{params} : K :=\n    {bv.text}.\n')
+                emit('gen_b', '  Definition gen_b (rhs : list K) : list K := skipn 1 rhs.\n')
                 t = s.targets[0]
                 if not (isinstance(t, ast.Tuple) and all(isinstance(e, ast.Name) for e in t.elts)):
                     raise Unsupported('subsolv result unpacking')
-                state['unpack'] = [e.id for e in t.elts]
+                st['unpack'] = [e.id for e in t.elts]
                 for e in t.elts:
-                    em.env[e.id] = Val(e.id, 'X', [e.id])
+                    em.env[e.id] = Poison('result of subsolv')
                 continue
             # ---- history update
             if isinstance(s, ast.Assign) and isinstance(s.targets[0], ast.Tuple) and isinstance(s.value, ast.Tuple):
                 tg = [ast.unparse(e) for e in s.targets[0].elts]
                 if tg == ['self.xold2', 'self.xold1']:
-                    if not state['seen_call']:
+                    if not st['seen_call']:
                         raise Unsupported('history updated before the subproblem is solved')
                     vals = [em.tr(e) for e in s.value.elts]
-                    out.append(cdef('gen_xold2_next', vals[0]))
-                    out.append(cdef('gen_xold1_next', vals[1]))
-                    state['hist'] = True
+                    emit('gen_xold2_next', cdef('gen_xold2_next', vals[0]))
+                    emit('gen_xold1_next', cdef('gen_xold1_next', vals[1]))
+                    st['hist'] = True
                     continue
                 if tg == ['self.gold2', 'self.gold1']:
                     continue          # not used by the algorithm
                 raise Unsupported('tuple assignment ' + ast.unparse(s))
-            if isinstance(s, ast.Assign) and ast.unparse(s.targets[0]) == 'change':
-                continue              # reporting only (returned second, unused by response())
-            if isinstance(s, ast.Assign) and ast.unparse(s.targets[0]) == 'epsimin_scaled':
-                continue              # tolerance handed to subsolv; recorded, not modelled
             if isinstance(s, ast.If) and ast.unparse(s.test).startswith('self.verbosity >='):
                 for n in ast.walk(s):
                     if isinstance(n, (ast.Assign, ast.AugAssign)):
                         tgs = n.targets if isinstance(n, ast.Assign) else [n.target]
                         for t in tgs:
-                            if 'self' in ast.unparse(t) or ast.unparse(t) in ('xmma', 'xval'):
+                            if 'self' in ast.unparse(t):
                                 raise Unsupported('printing block assigns state: ' + ast.unparse(n))
+                            for e in ast.walk(t):
+                                if isinstance(e, ast.Name) and e.id in em.env and isinstance(e.ctx, ast.Store):
+                                    em.env[e.id] = Poison('assigned inside a printing block')
                 continue
             if isinstance(s, ast.Return):
                 if not (isinstance(s.value, ast.Tuple) and len(s.value.elts) == 2 and isinstance(s.value.elts[0], ast.Name)):
                     raise Unsupported('return ' + ast.unparse(s))
-                state['ret'] = s.value.elts[0].id
+                st['ret'] = s.value.elts[0].id
                 continue
             if isinstance(s, ast.Assign) and len(s.targets) == 1:
                 t = s.targets[0]
-                if isinstance(t, ast.Name) or is_self_attr(t):
-                    if is_self_attr(t) and t.attr not in ('offset', 'low', 'upp'):
+                if is_self_attr(t):
+                    if t.attr not in ('offset', 'low', 'upp'):
                         raise Unsupported('assignment to self.' + t.attr)
-                    assign(t, em.tr(s.value))
+                    v = em.tr(s.value)
+                    if v.kind != 'V':
+                        raise Unsupported(f'self.{t.attr} kind')
+                    if t.attr == 'offset':
+                        em.env['self.offset'] = v
+                    else:
+                        if tag:
+                            raise Unsupported(f'self.{t.attr} assigned inside a version branch')
+                        emit('gen_' + t.attr, cdef('gen_' + t.attr, v))
+                        em.env['self.' + t.attr] = sym(t.attr, 'V')
+                    continue
+                if isinstance(t, ast.Name):
+                    # row level:  rhs = np.dot(P, 1/shift) + np.dot(Q, 1/shift) - g   and   b = rhs[1:]
+                    if has_dot(s.value):
+                        em.env[t.id] = row_term(em, s.value, [])
+                        continue
+                    if isinstance(s.value, ast.Subscript) and isinstance(s.value.value, ast.Name) and \
+                            isinstance(em.env.get(s.value.value.id), RowTerm):
+                        r = em.env[s.value.value.id]
+                        if ast.unparse(s.value.slice) != '1:' or r.skip:
+                            raise Unsupported('slice of the right-hand side: ' + ast.unparse(s.value))
+                        em.env[t.id] = RowTerm(r.text, r.ops, r.rsyms, skip=1)
+                        continue
+                    bind(em, t.id, s.value)
                     continue
             raise Unsupported('mmasub statement: ' + ast.unparse(s)[:160])
 
-    do_block(f.body)
-    need = ['gen_dx_init', 'gen_offset_init', 'gen_offset_adapt', 'gen_shift', 'gen_low', 'gen_upp', 'gen_alfa', 'gen_beta',
-            'gen_dg_plus', 'gen_dg_min', 'gen_dx2']
-    for nme in need:
+    top = dict(seen_call=False, hist=False, ret=None)
+    do_block(CompEmitter(env0), f.body, top)
+    for nme in ('gen_dx_init', 'gen_offset_init', 'gen_offset_adapt', 'gen_low', 'gen_upp', 'gen_arg_alfa', 'gen_arg_beta',
+                'gen_rhs_row', 'gen_xold1_next'):
         if nme not in emitted:
             raise Unsupported(nme + ' not found in mmasub')
-    if not (state['seen_call'] and state['hist'] and state['ret']):
-        raise Unsupported('mmasub: subsolv call / history update / return not found')
-    # the value returned as the new design is the first component of what subsolv returns
-    idx = state['unpack'].index(state['ret']) if state['ret'] in state['unpack'] else None
-    if idx is None:
+    forks = result['forks']
+    if not forks or any(fk['binding'] != forks[0]['binding'] or fk['unpack'] != forks[0]['unpack'] or fk['ret'] != forks[0]['ret']
+                        for fk in forks):
+        raise Unsupported('version branches disagree about the subsolv call / return')
+    fk = forks[0]
+    if fk['ret'] not in fk['unpack']:
         raise Unsupported('mmasub does not return a subsolv result')
+    idx = fk['unpack'].index(fk['ret'])
     sret = [s for s in subsolv_fn.body if isinstance(s, ast.Return)]
-    if len(sret) != 1 or not isinstance(sret[0].value, ast.Tuple):
-        raise Unsupported('subsolv return')
-    rnames = [ast.unparse(e) for e in sret[0].value.elts]
-    out.append('  Definition gen_versions : list string := [' + '; '.join(f'"{v}"' for v in versions) + ']%string.\n')
+    if len(sret) != 1 or not isinstance(sret[0].value, ast.Tuple) or idx != 0:
+        raise Unsupported('subsolv return / mmasub must return the first result')
+    out.append('  Definition gen_versions : list string := [' + '; '.join(f'"{v}"' for v in result['versions']) + ']%string.\n')
     out.append('  Definition gen_subsolv_binding : list (string * string) := [' +
-               '; '.join(f'("{p}", "{v}")' for p, v in state['args']) + ']%string.\n')
-    out.append(f'  Definition gen_returned_design : string := "{rnames[idx]}"%string.\n')
-    return rnames
-
-
-def row_def(name, expr, em):
-    """row-level definition: np.dot(M, E) with M a matrix symbol and E an expression over ONE per-variable symbol"""
-    syms = {}
-
-    def tr(n):
-        if isinstance(n, ast.BinOp) and type(n.op) in BIN:
-            return f'({BIN[type(n.op)]} {tr(n.left)} {tr(n.right)})'
-        if isinstance(n, ast.Call) and fname(n) == 'np.dot' and len(n.args) == 2 and not n.keywords:
-            m = em.tr(n.args[0])
-            e = em.tr(n.args[1])
-            if m.kind != 'M' or m.text not in m.syms or e.kind != 'V' or len(e.syms) != 1:
-                raise Unsupported('np.dot operands: ' + ast.unparse(n))
-            (v,) = e.syms
-            syms[m.text] = 'list K'
-            syms[v] = 'list K'
-            return f'(dot {m.text} (map (fun {v} => {e.text}) {v}))'
-        v = em.tr(n)
-        if v.kind != 'R' or v.text not in v.syms:
-            raise Unsupported('row-level operand: ' + ast.unparse(n))
-        syms[v.text] = 'K'
-        return v.text
-    body = tr(expr)
-    ps = [s for s in ORDER if s in syms]
-    args = ''.join(f' ({p} : {syms[p]})' for p in ps)
-    return f'  Definition {name}{args} : K :=\n    {body}.\n'
+               '; '.join(f'("{p}", "{v}")' for p, v in fk['binding']) + ']%string.\n')
+    out.append(f'  Definition gen_returned_index : nat := {idx}.\n')
 
 
 # ======================================================================================= vector dialect
 class VecEmitter:
-    """types: S scalar, V vector, M matrix, N length (nat), B boolean"""
+    """types: S scalar, V vector, M matrix, N length (nat), I integer literal, B boolean"""
 
     def __init__(self, env):
         self.env = dict(env)
@@ -439,7 +481,16 @@ class VecEmitter:
     def fail(self, n, why=''):
         raise Unsupported(f'T-real(vector): unsupported {type(n).__name__} {why}: {ast.unparse(n)[:140]}')
 
+    @staticmethod
+    def asS(v):
+        return Val(f'(nofZ {v.text})', 'S', v.syms) if v.kind == 'I' else v
+
+    @staticmethod
+    def asN(v):
+        return Val(v.text, 'N', v.syms) if v.kind == 'I' else v
+
     def binop(self, n, op, a, b):
+        a, b = self.asS(a), self.asS(b)
         s = a.syms | b.syms
         if a.kind == 'S' and b.kind == 'S':
             return Val(f'({op} {a.text} {b.text})', 'S', s)
@@ -451,15 +502,23 @@ class VecEmitter:
             return Val(f'(map (fun v_ => {op} v_ {b.text}) {a.text})', 'V', s)
         self.fail(n, f'operand types {a.kind},{b.kind}')
 
+    def lookup(self, n, key):
+        if key in self.env:
+            v = self.env[key]
+            if isinstance(v, Poison):
+                raise Unsupported(f'{key} is used but its definition is outside the dialect: {v.why}')
+            return v
+        self.fail(n, 'unbound name')
+
     def tr(self, n):
         if isinstance(n, ast.Constant):
+            if isinstance(n.value, int) and not isinstance(n.value, bool) and n.value >= 0:
+                return Val(str(n.value), 'I')
             return Val(lit(n.value), 'S')
         if isinstance(n, ast.Name):
-            if n.id in self.env:
-                return self.env[n.id]
-            self.fail(n, 'unbound name')
+            return self.lookup(n, n.id)
         if isinstance(n, ast.UnaryOp):
-            a = self.tr(n.operand)
+            a = self.asS(self.tr(n.operand))
             if isinstance(n.op, ast.USub):
                 if a.kind == 'S':
                     return Val(f'(nopp {a.text})', 'S', a.syms)
@@ -471,7 +530,7 @@ class VecEmitter:
         if isinstance(n, ast.BinOp):
             if isinstance(n.op, ast.Pow):
                 if isinstance(n.right, ast.Constant) and n.right.value == 2 and not isinstance(n.right.value, bool):
-                    a = self.tr(n.left)
+                    a = self.asS(self.tr(n.left))
                     if a.kind == 'S':
                         return Val(f'(sq {a.text})', 'S', a.syms)
                     if a.kind == 'V':
@@ -479,18 +538,22 @@ class VecEmitter:
                 self.fail(n, 'power')
             if type(n.op) not in BIN:
                 self.fail(n, 'operator')
-            return self.binop(n, BIN[type(n.op)], self.tr(n.left), self.tr(n.right))
+            a, b = self.tr(n.left), self.tr(n.right)
+            if isinstance(n.op, ast.Add) and {a.kind, b.kind} <= {'N', 'I'} and 'N' in (a.kind, b.kind):
+                return Val(f'({a.text} + {b.text})%nat', 'N', a.syms | b.syms)
+            return self.binop(n, BIN[type(n.op)], a, b)
         if isinstance(n, ast.Compare):
             if len(n.ops) != 1:
                 self.fail(n, 'chained comparison')
             a, b = self.tr(n.left), self.tr(n.comparators[0])
             op = type(n.ops[0])
-            if a.kind == 'S' and b.kind == 'S':
-                fm = {ast.Lt: '(nltb {0} {1})', ast.Gt: '(nltb {1} {0})', ast.LtE: '(nleb {0} {1})', ast.GtE: '(nleb {1} {0})'}
+            if 'N' in (a.kind, b.kind) and {a.kind, b.kind} <= {'N', 'I'}:
+                fm = {ast.Lt: '(Nat.ltb {0} {1})', ast.Gt: '(Nat.ltb {1} {0})', ast.LtE: '(Nat.leb {0} {1})', ast.GtE: '(Nat.leb {1} {0})'}
                 if op in fm:
                     return Val(fm[op].format(a.text, b.text), 'B', a.syms | b.syms)
-            if a.kind == 'N' and b.kind == 'N':
-                fm = {ast.Lt: '(Nat.ltb {0} {1})', ast.Gt: '(Nat.ltb {1} {0})', ast.LtE: '(Nat.leb {0} {1})', ast.GtE: '(Nat.leb {1} {0})'}
+            a, b = self.asS(a), self.asS(b)
+            if a.kind == 'S' and b.kind == 'S':
+                fm = {ast.Lt: '(nltb {0} {1})', ast.Gt: '(nltb {1} {0})', ast.LtE: '(nleb {0} {1})', ast.GtE: '(nleb {1} {0})'}
                 if op in fm:
                     return Val(fm[op].format(a.text, b.text), 'B', a.syms | b.syms)
             self.fail(n, 'comparison')
@@ -507,7 +570,7 @@ class VecEmitter:
             if f in ('np.maximum', 'np.minimum') and len(args) == 2:
                 return self.binop(n, 'nmax' if f == 'np.maximum' else 'nmin', self.tr(args[0]), self.tr(args[1]))
             if f in ('max', 'min') and len(args) >= 2:
-                vs = [self.tr(a) for a in args]
+                vs = [self.asS(self.tr(a)) for a in args]
                 if any(v.kind != 'S' for v in vs):
                     self.fail(n, 'builtin max/min of non-scalars')
                 acc = vs[0]
@@ -520,7 +583,7 @@ class VecEmitter:
                     self.fail(n, 'reduction of a non-vector')
                 return Val(f'({"lmin" if f == "np.min" else "lmax"} {a.text})', 'S', a.syms)
             if f == 'np.abs' and len(args) == 1:
-                a = self.tr(args[0])
+                a = self.asS(self.tr(args[0]))
                 if a.kind == 'V':
                     return Val(f'(map nabs {a.text})', 'V', a.syms)
                 if a.kind == 'S':
@@ -530,7 +593,7 @@ class VecEmitter:
                 if all(v.kind == 'V' for v in vs):
                     return Val(f'(vmap3 clip {vs[0].text} {vs[1].text} {vs[2].text})', 'V', vs[0].syms | vs[1].syms | vs[2].syms)
             if f == 'np.ones' and len(args) == 1:
-                a = self.tr(args[0])
+                a = self.asN(self.tr(args[0]))
                 if a.kind == 'N':
                     return Val(f'(repeat (nofZ 1) {a.text})', 'V', a.syms)
             if f == 'len' and len(args) == 1:
@@ -547,7 +610,7 @@ class VecEmitter:
                 if (a.kind, b.kind) == ('V', 'M'):
                     return Val(f'(vecmat {a.text} {b.text})', 'V', s)
             if f == 'np.array' and len(args) == 1 and isinstance(args[0], ast.List) and len(args[0].elts) == 1:
-                a = self.tr(args[0].elts[0])
+                a = self.asS(self.tr(args[0].elts[0]))
                 if a.kind == 'S':
                     return Val(f'[{a.text}]', 'V', a.syms)
             if f == 'np.concatenate' and len(args) == 1 and isinstance(args[0], ast.List):
@@ -567,8 +630,14 @@ class VecEmitter:
             self.fail(n, 'call')
         self.fail(n)
 
+    def bind(self, name, node):
+        try:
+            self.env[name] = self.tr(node)
+        except Unsupported as e:
+            self.env[name] = Poison(str(e))
 
-TY = {'S': 'K', 'V': 'list K', 'M': 'list (list K)', 'N': 'nat', 'B': 'bool'}
+
+TY = {'S': 'K', 'V': 'list K', 'M': 'list (list K)', 'N': 'nat', 'B': 'bool', 'I': 'nat'}
 
 
 def vdef(name, val, order):
@@ -576,13 +645,16 @@ def vdef(name, val, order):
     if set(ps) != set(val.syms):
         raise Unsupported(f'unknown symbols in {name}: {sorted(val.syms)}')
     args = ''.join(f' ({p} : {TY[order[p]]})' for p in ps)
-    return f'  Definition {name}{args} : {TY[val.kind]} :=\n    {val.text}.\n'
+    body = VecEmitter.asN(val) if val.kind == 'I' else val
+    return f'  Definition {name}{args} : {TY[val.kind]} :=\n    {body.text}.\n'
 
 
 RES_PARAMS = ['x', 'y', 'z', 'lam', 'xsi', 'eta', 'mu', 'zet', 's', 'upp', 'low', 'P0', 'P1', 'Q0', 'Q1', 'epsi', 'a0',
               'a', 'b', 'c', 'd', 'alfa', 'beta']
 RES_KINDS = dict(x='V', y='V', z='S', lam='V', xsi='V', eta='V', mu='V', zet='S', s='V', upp='V', low='V', P0='V',
                  P1='M', Q0='V', Q1='M', epsi='S', a0='S', a='V', b='V', c='V', d='V', alfa='V', beta='V')
+STATE = RES_PARAMS[:9]
+DIRS = ['dx', 'dy', 'dz', 'dlam', 'dxsi', 'deta', 'dmu', 'dzet', 'ds']
 
 
 def gen_residual(tree, out):
@@ -593,10 +665,12 @@ def gen_residual(tree, out):
     em = VecEmitter({p: Val(p, RES_KINDS[p], [p]) for p in params})
     ret = None
     for s in f.body:
+        if is_doc(s):
+            continue
         if isinstance(s, ast.Assign) and len(s.targets) == 1 and isinstance(s.targets[0], ast.Name):
             if s.targets[0].id in params:
                 raise Unsupported('residual re-binds a parameter')
-            em.env[s.targets[0].id] = em.tr(s.value)
+            em.bind(s.targets[0].id, s.value)
         elif isinstance(s, ast.Return):
             ret = em.tr(s.value)
         else:
@@ -606,27 +680,27 @@ def gen_residual(tree, out):
     out.append(vdef('gen_residual', Val(ret.text, 'V', RES_PARAMS), RES_KINDS))
 
 
-STATE = ['x', 'y', 'z', 'lam', 'xsi', 'eta', 'mu', 'zet', 's']
-DIRS = ['dx', 'dy', 'dz', 'dlam', 'dxsi', 'deta', 'dmu', 'dzet', 'ds']
-OLDS = ['xold', 'yold', 'zold', 'lamold', 'xsiold', 'etaold', 'muold', 'zetold', 'sold']
-STEPS = ['stmy', 'stmz', 'stmlam', 'stmxsi', 'stmeta', 'stmmu', 'stmzet', 'stms', 'stmxx', 'stmalfa', 'stmbeta', 'steg']
-
-
-def targets_of(s):
-    tg = s.targets if isinstance(s, ast.Assign) else [s.target] if isinstance(s, (ast.AugAssign,)) else []
+def stores(stmts):
+    """names stored anywhere in the statements (also subscript / augmented / tuple / loop targets)"""
     outl = []
-    for t in tg:
-        for e in (t.elts if isinstance(t, ast.Tuple) else [t]):
-            while isinstance(e, ast.Subscript):
-                e = e.value
-            outl.append(ast.unparse(e))
+    for s in stmts:
+        for n in ast.walk(s):
+            if isinstance(n, ast.Name) and isinstance(n.ctx, ast.Store):
+                outl.append(n.id)
+            elif isinstance(n, (ast.Subscript, ast.Attribute)) and isinstance(n.ctx, ast.Store):
+                e = n
+                while isinstance(e, (ast.Subscript, ast.Attribute)):
+                    e = e.value
+                if isinstance(e, ast.Name):
+                    outl.append(e.id)
     return outl
 
 
-def check_residual_call(call):
+def residual_call_locals(call):
     if not (isinstance(call, ast.Call) and fname(call) == 'residual' and not call.keywords and
-            [ast.unparse(a) for a in call.args] == RES_PARAMS):
-        raise Unsupported('residual call does not pass the state in order: ' + ast.unparse(call)[:200])
+            len(call.args) == len(RES_PARAMS) and all(isinstance(a, ast.Name) for a in call.args)):
+        raise Unsupported('residual call: ' + ast.unparse(call)[:200])
+    return [a.id for a in call.args]
 
 
 def gen_subsolv(tree, out):
@@ -634,196 +708,242 @@ def gen_subsolv(tree, out):
     params = [a.arg for a in f.args.args]
     if params != ['epsimin', 'low', 'upp', 'alfa', 'beta', 'P', 'Q', 'a0', 'a', 'b', 'c', 'd', 'x0']:
         raise Unsupported(f'subsolv signature {params}')
-    kinds = dict(epsimin='S', low='V', upp='V', alfa='V', beta='V', P='M', Q='M', a0='S', a='V', b='V', c='V', d='V',
-                 x0='V', n='N', m='N', epsi='S', residumax='S', residunorm='S', residu='V', normnew='S',
-                 ittt='N', maxittt='N')
-    kinds.update({k: RES_KINDS[k] for k in STATE})
-    kinds.update({k: 'S' for k in STEPS})
+    pk = dict(epsimin='S', low='V', upp='V', alfa='V', beta='V', P='M', Q='M', a0='S', a='V', b='V', c='V', d='V', x0='V')
+    kinds = dict(pk)
+    kinds.update(RES_KINDS)
     kinds.update({d: RES_KINDS[k] for d, k in zip(DIRS, STATE)})
-    order = {k: kinds[k] for k in ['epsimin', 'epsi', 'n', 'm', 'low', 'upp', 'alfa', 'beta', 'P', 'Q', 'a0', 'a', 'b', 'c',
-                                   'd', 'x0'] + STATE + DIRS + STEPS + ['residu', 'residumax', 'residunorm', 'normnew',
-                                                                'ittt', 'maxittt']}
-    em = VecEmitter({p: Val(p, kinds[p], [p]) for p in params})
-    body = [s for s in f.body if not (isinstance(s, ast.Expr) and isinstance(s.value, ast.Constant))]
+    kinds.update(steg='S', residu='V', residunorm='S', normnew='S', ittt='N')
+    order = {k: kinds[k] for k in ['epsimin', 'epsi', 'low', 'upp', 'alfa', 'beta', 'P', 'Q', 'a0', 'a', 'b', 'c', 'd', 'x0'] +
+             STATE + DIRS + ['steg', 'residu', 'residunorm', 'normnew', 'ittt']}
+    body = [s for s in f.body if not is_doc(s)]
     outer = [s for s in body if isinstance(s, ast.While)]
-    if len(outer) != 1:
+    if len(outer) != 1 or outer[0].orelse:
         raise Unsupported('subsolv: exactly one outer while expected')
     outer = outer[0]
-    pre = body[:body.index(outer)]
-    post = body[body.index(outer) + 1:]
-    if len(post) != 1 or not isinstance(post[0], ast.Return) or \
-            [ast.unparse(e) for e in post[0].value.elts] != STATE:
+    pre, post = body[:body.index(outer)], body[body.index(outer) + 1:]
+    if len(post) != 1 or not isinstance(post[0], ast.Return) or not isinstance(post[0].value, ast.Tuple) or \
+            not all(isinstance(e, ast.Name) for e in post[0].value.elts) or len(post[0].value.elts) != 9:
         raise Unsupported('subsolv: return statement')
-    # ---------------- initial point
-    consts = {}
+    L = [e.id for e in post[0].value.elts]              # locals holding x, y, z, lam, xsi, eta, mu, zet, s
+    role = dict(zip(L, STATE))
+    # every residual call passes the state in order and the same locals for the data
+    calls = [n for n in ast.walk(f) if isinstance(n, ast.Call) and fname(n) == 'residual']
+    if len(calls) < 2:
+        raise Unsupported('residual calls')
+    locs = residual_call_locals(calls[0])
+    for c in calls[1:]:
+        if residual_call_locals(c) != locs:
+            raise Unsupported('residual calls differ')
+    if locs[:9] != L:
+        raise Unsupported('residual is not called on the returned variables')
+    for nm, r in zip(locs[9:], RES_PARAMS[9:]):
+        if r in params and nm != r:
+            raise Unsupported(f'residual argument {r} is not the subsolv parameter')
+        role[nm] = r
+    epsi_l = locs[RES_PARAMS.index('epsi')]
+    allst = stores(f.body)
+    for p in params:
+        if p in allst:
+            raise Unsupported(f'subsolv modifies its parameter {p}')
+    for nm in locs[9:]:
+        if role[nm] in ('P0', 'P1', 'Q0', 'Q1') and allst.count(nm) != 1:
+            raise Unsupported(f'{nm} assigned more than once')
+    # ---------------- preamble: initial point, constants
+    em = VecEmitter({p: Val(p, pk[p], [p]) for p in params})
+    inner = [s for s in outer.body if isinstance(s, ast.While)]
+    if len(inner) != 1 or inner[0].orelse:
+        raise Unsupported('subsolv: exactly one inner while expected')
+    inner = inner[0]
     for s in pre:
-        if isinstance(s, ast.Assign) and isinstance(s.targets[0], ast.Tuple) and ast.unparse(s.targets[0]) == '(n, m)' or \
-                (isinstance(s, ast.Assign) and ast.unparse(s.targets[0]) == 'n, m'):
-            vals = s.value.elts
-            if [ast.unparse(v) for v in vals] != ['len(alfa)', 'len(a)']:
-                raise Unsupported('n, m = ' + ast.unparse(s.value))
-            em.env['n'] = Val('n', 'N', ['n'])
-            em.env['m'] = Val('m', 'N', ['m'])
+        if isinstance(s, ast.Assign) and len(s.targets) == 1 and isinstance(s.targets[0], ast.Tuple) and \
+                isinstance(s.value, ast.Tuple) and len(s.targets[0].elts) == len(s.value.elts):
+            for t, v in zip(s.targets[0].elts, s.value.elts):
+                if not isinstance(t, ast.Name):
+                    raise Unsupported('preamble tuple target')
+                em.bind(t.id, v)
             continue
         if not (isinstance(s, ast.Assign) and len(s.targets) == 1 and isinstance(s.targets[0], ast.Name)):
             raise Unsupported('subsolv preamble: ' + ast.unparse(s)[:100])
         name = s.targets[0].id
-        if name in ('GG', 'bb', 'AA', 'itera'):
-            continue           # work arrays of the Newton system (abstract in the model)
-        if name == 'maxittt':
-            if not (isinstance(s.value, ast.Constant) and isinstance(s.value.value, int)):
-                raise Unsupported('maxittt')
-            out.append(f'  Definition gen_maxittt : nat := {s.value.value}.\n')
-            em.env['maxittt'] = Val('maxittt', 'N', ['maxittt'])
-            continue
-        if name == 'epsi':
-            out.append(vdef('gen_epsi0', em.tr(s.value), order))
-            em.env['epsi'] = Val('epsi', 'S', ['epsi'])
-            continue
-        if name == 'x':
+        r = role.get(name)
+        if r == 'x':
             v = s.value
             if not (isinstance(v, ast.IfExp) and ast.unparse(v.test) == 'x0 is None'):
                 raise Unsupported('x initialisation')
             out.append(vdef('gen_x_init_mid', em.tr(v.body), order))
             out.append(vdef('gen_x_init_x0', em.tr(v.orelse), order))
-            em.env['x'] = Val('x', 'V', ['x'])
-            continue
-        if name in STATE:
-            out.append(vdef('gen_' + name + '_init', em.tr(s.value), order))
-            em.env[name] = Val(name, kinds[name], [name])
-            continue
-        if name in ('P0', 'Q0', 'P1', 'Q1'):
-            out.append(vdef('gen_' + name, em.tr(s.value), order))
-            em.env[name] = Val(name, RES_KINDS[name], [name])
-            continue
-        raise Unsupported('subsolv preamble: ' + ast.unparse(s)[:100])
-    for k in STATE + ['P0', 'Q0', 'P1', 'Q1', 'epsi', 'maxittt']:
-        if k not in em.env:
-            raise Unsupported(f'subsolv: {k} not initialised')
+            em.env[name] = Val('x', 'V', ['x'])
+        elif r in STATE or r in ('P0', 'P1', 'Q0', 'Q1'):
+            v = em.tr(s.value)
+            if v.kind != RES_KINDS[r] and not (v.kind == 'I' and RES_KINDS[r] == 'S'):
+                raise Unsupported(f'{r} initial kind')
+            out.append(vdef('gen_' + r + ('_init' if r in STATE else ''), em.asS(v), order))
+            em.env[name] = Val(r, RES_KINDS[r], [r])
+        elif r == 'epsi':
+            out.append(vdef('gen_epsi0', em.asS(em.tr(s.value)), order))
+            em.env[name] = Val('epsi', 'S', ['epsi'])
+        else:
+            em.bind(name, s.value)
+    for nm in L + [n for n in locs[9:] if role[n] in ('P0', 'P1', 'Q0', 'Q1', 'epsi')]:
+        v = em.env.get(nm)
+        if not isinstance(v, Val) or v.text != role[nm]:
+            raise Unsupported(f'subsolv: {role[nm]} not initialised before the loop')
     # ---------------- outer loop
     out.append(vdef('gen_outer_test', em.tr(outer.test), order))
     ob = outer.body
-    inner = [s for s in ob if isinstance(s, ast.While)]
-    if len(inner) != 1 or outer.orelse:
-        raise Unsupported('subsolv: exactly one inner while expected')
-    inner = inner[0]
     i0 = ob.index(inner)
-    seen = set()
-    for s in ob[:i0]:
-        src = ast.unparse(s)
-        if src == 'itera = itera + 1':
-            continue
-        if isinstance(s, ast.Assign) and ast.unparse(s.targets[0]) == 'residu':
-            check_residual_call(s.value)
-        elif src == 'residunorm = np.linalg.norm(residu)':
-            pass
-        elif isinstance(s, ast.Assign) and ast.unparse(s.targets[0]) == 'residumax':
-            e2 = VecEmitter({'residu': Val('residu', 'V', ['residu'])})
-            out.append(vdef('gen_residumax', e2.tr(s.value), order))
-        elif src == 'ittt = 0':
-            pass
-        else:
-            raise Unsupported('outer loop statement: ' + src[:100])
-        seen.add(ast.unparse(s.targets[0]))
-    if seen != {'residu', 'residunorm', 'residumax', 'ittt'}:
-        raise Unsupported('outer loop prologue incomplete')
-    tail = ob[i0 + 1:]
-    if len(tail) != 2 or not (isinstance(tail[0], ast.If) and 'print' in ast.unparse(tail[0]) and
-                              not any(isinstance(n, (ast.Assign, ast.AugAssign)) for n in ast.walk(tail[0]))):
-        raise Unsupported('outer loop tail')
-    if not (isinstance(tail[1], ast.AugAssign) and ast.unparse(tail[1].target) == 'epsi' and isinstance(tail[1].op, ast.Div)):
+    pro, tail = ob[:i0], ob[i0 + 1:]
+    if set(stores(pro)) & set(L) or set(stores(tail)) & set(L):
+        raise Unsupported('outer loop modifies the variables outside the inner loop')
+    # epsi update: the only store to epsi in the outer body, after the inner loop
+    upd = [s for s in tail if epsi_l in stores([s])]
+    if len(upd) != 1 or epsi_l in stores(pro) or epsi_l in stores(inner.body):
         raise Unsupported('epsi update')
-    em.env['ittt'] = Val('ittt', 'N', ['ittt'])
-    em.env['residumax'] = Val('residumax', 'S', ['residumax'])
-    em.env['residunorm'] = Val('residunorm', 'S', ['residunorm'])
-    out.append(vdef('gen_epsi_next', em.binop(tail[1], 'ndiv', em.env['epsi'], em.tr(tail[1].value)), order))
-    out.append(vdef('gen_inner_test', em.tr(inner.test), order))
-    # ---------------- inner loop body
+    u = upd[0]
+    if isinstance(u, ast.AugAssign) and isinstance(u.target, ast.Name) and type(u.op) in BIN:
+        out.append(vdef('gen_epsi_next', em.binop(u, BIN[type(u.op)], em.env[epsi_l], em.tr(u.value)), order))
+    elif isinstance(u, ast.Assign) and isinstance(u.targets[0], ast.Name):
+        out.append(vdef('gen_epsi_next', em.tr(u.value), order))
+    else:
+        raise Unsupported('epsi update form')
+    for s in tail:
+        if s is not u and not (isinstance(s, ast.If) and not stores([s])):
+            raise Unsupported('outer loop tail: ' + ast.unparse(s)[:80])
+
+    def residual_block(stmts, em2, where):
+        """R = residual(...); RN = np.linalg.norm(R); RM = f(R); other plain assignments -> env"""
+        res_name = None
+        for s in stmts:
+            if not (isinstance(s, ast.Assign) and len(s.targets) == 1 and isinstance(s.targets[0], ast.Name)):
+                raise Unsupported(f'{where}: ' + ast.unparse(s)[:80])
+            nm = s.targets[0].id
+            if isinstance(s.value, ast.Call) and fname(s.value) == 'residual':
+                res_name = nm
+                em2.env[nm] = Val('residu', 'V', ['residu'])
+            elif ast.unparse(s.value).startswith('np.linalg.norm(') and len(s.value.args) == 1 and \
+                    isinstance(s.value.args[0], ast.Name) and isinstance(em2.env.get(s.value.args[0].id), Val) and \
+                    em2.env[s.value.args[0].id].text == 'residu':
+                em2.env[nm] = Val('residunorm', 'S', ['residunorm'])
+            else:
+                em2.bind(nm, s.value)
+        return res_name
+    residual_block(pro, em, 'outer loop prologue')
+    # ---------------- inner loop
     ib = inner.body
-    if inner.orelse or ast.unparse(ib[0]) != 'ittt = ittt + 1':
-        raise Unsupported('inner loop must start with ittt = ittt + 1')
+    cnt = ib[0]
+    if not (isinstance(cnt, ast.Assign) and isinstance(cnt.targets[0], ast.Name) and
+            ast.unparse(cnt.value) in (f'{cnt.targets[0].id} + 1', f'1 + {cnt.targets[0].id}')):
+        raise Unsupported('inner loop must start by incrementing its counter')
+    counter = cnt.targets[0].id
+    c0 = em.env.get(counter)
+    if not (isinstance(c0, Val) and c0.kind == 'I' and c0.text == '0') or stores(ib).count(counter) != 1:
+        raise Unsupported('inner loop counter')
+    test_env = VecEmitter(em.env)
+    test_env.env[counter] = Val('ittt', 'N', ['ittt'])
+    inner_test_pro = test_env.tr(inner.test)
     fors = [s for s in ib if isinstance(s, ast.For)]
-    if len(fors) != 1:
+    if len(fors) != 1 or fors[0].orelse:
         raise Unsupported('line search loop')
     ls = fors[0]
     k_ls = ib.index(ls)
-    assigned_once = {}
-    for s in ib[1:k_ls]:
-        for t in targets_of(s):
-            assigned_once[t] = assigned_once.get(t, 0) + 1
-        if not isinstance(s, (ast.Assign,)):
-            raise Unsupported('inner loop statement: ' + ast.unparse(s)[:100])
-    for v in STATE + ['alfa', 'beta', 'epsi', 'low', 'upp']:
-        if v in assigned_once:
-            raise Unsupported(f'{v} is modified inside the Newton step before the line search')
-    for d in DIRS + STEPS + OLDS:
-        if assigned_once.get(d, 0) != 1:
-            raise Unsupported(f'{d} must be assigned exactly once per Newton step')
-    # the Newton direction is abstract: bind the direction names to symbols once all of them have been assigned
-    names_in_order = [t for s in ib[1:k_ls] for t in targets_of(s)]
-    last_dir = max(i for i, t in enumerate(names_in_order) if t in DIRS)
-    first_step = min(i for i, t in enumerate(names_in_order) if t in STEPS + OLDS)
-    if last_dir > first_step:
-        raise Unsupported('step-length block interleaved with the Newton direction')
-    for d in DIRS:
-        em.env[d] = Val(d, kinds[d], [d])
-    for s in ib[1:k_ls]:
-        tg = targets_of(s)
-        if len(tg) == 1 and tg[0] in STEPS:
-            v = em.tr(s.value)
-            if v.kind != 'S':
-                raise Unsupported(tg[0] + ' not scalar')
-            # one definition per named step bound; later uses refer to it by name
-            out.append(vdef('gen_' + tg[0], v, order))
-            em.env[tg[0]] = Val(tg[0], 'S', [tg[0]])
-        elif len(tg) == 1 and tg[0] in OLDS:
-            v = em.tr(s.value)
-            st = STATE[OLDS.index(tg[0])]
-            if v.text != st:
-                raise Unsupported(f'{tg[0]} is not a copy of {st}')
-            em.env[tg[0]] = v
-    # ---------------- line search
-    if ast.unparse(ls.iter) != 'range(maxittt)' or ls.orelse:
-        raise Unsupported('line search range')
-    em.env['steg'] = Val('steg', 'S', ['steg'])
+    newton, epilogue = ib[1:k_ls], ib[k_ls + 1:]
+    if set(stores(newton)) & (set(L) | {epsi_l}) or set(stores(epilogue)) & (set(L) | {epsi_l}):
+        raise Unsupported('the variables are modified outside the line search')
+    # ---- line search structure: v = OLD + STEP * DIR for every variable
     lb = ls.body
-    upd = {}
-    k = 0
-    while k < len(lb) and isinstance(lb[k], ast.Assign) and targets_of(lb[k])[0] in STATE:
+    upd, k = {}, 0
+    step = None
+    olds, dirs = {}, {}
+    while k < len(lb) and isinstance(lb[k], ast.Assign) and len(lb[k].targets) == 1:
         t = lb[k].targets[0]
-        nme = targets_of(lb[k])[0]
+        base = t.value if isinstance(t, ast.Subscript) else t
+        if not isinstance(base, ast.Name) or base.id not in L:
+            break
         if isinstance(t, ast.Subscript) and ast.unparse(t.slice) != ':':
             raise Unsupported('line search update target ' + ast.unparse(t))
-        if nme in upd:
-            raise Unsupported('line search updates ' + nme + ' twice')
-        v = em.tr(lb[k].value)
-        if v.kind != kinds[nme]:
-            raise Unsupported('line search update kind')
-        upd[nme] = v
+        v = lb[k].value
+        if not (isinstance(v, ast.BinOp) and isinstance(v.op, ast.Add) and isinstance(v.left, ast.Name) and
+                isinstance(v.right, ast.BinOp) and isinstance(v.right.op, ast.Mult) and
+                isinstance(v.right.left, ast.Name) and isinstance(v.right.right, ast.Name)):
+            raise Unsupported('line search update form: ' + ast.unparse(lb[k]))
+        if base.id in upd or (step is not None and v.right.left.id != step):
+            raise Unsupported('line search updates')
+        step = v.right.left.id
+        olds[base.id], dirs[base.id] = v.left.id, v.right.right.id
+        upd[base.id] = v
         k += 1
-    if sorted(upd) != sorted(STATE):
-        raise Unsupported('line search must update every variable')
-    for nme in STATE:
-        out.append(vdef('gen_new_' + nme, upd[nme], order))
+    if sorted(upd) != sorted(L):
+        raise Unsupported('line search must update every variable exactly once')
+    if len(set(dirs.values())) != 9 or len(set(olds.values())) != 9:
+        raise Unsupported('line search directions / saved values must be distinct')
+    # ---- Newton part: directions are abstract symbols, everything else is substituted
+    nst = stores(newton)
+    for v in L:
+        if nst.count(dirs[v]) != 1 or nst.count(olds[v]) != 1:
+            raise Unsupported(f'direction / saved value of {role[v]} must be assigned exactly once per Newton step')
+    if nst.count(step) != 1:
+        raise Unsupported('step length must be assigned exactly once before the line search')
+    dir_role = {dirs[v]: 'd' + role[v] for v in L}
+    emn = VecEmitter(em.env)
+    for s in newton:
+        if isinstance(s, ast.Assign) and len(s.targets) == 1 and isinstance(s.targets[0], ast.Name):
+            nm = s.targets[0].id
+            if nm in dir_role:
+                emn.env[nm] = Val(dir_role[nm], kinds[dir_role[nm]], [dir_role[nm]])
+            else:
+                emn.bind(nm, s.value)
+        else:
+            for nm in stores([s]):
+                emn.env[nm] = Poison('assigned by a statement outside the dialect: ' + ast.unparse(s)[:60])
+    for v in L:
+        o = emn.env.get(olds[v])
+        if not isinstance(o, Val) or o.text != role[v]:
+            raise Unsupported(f'{olds[v]} is not a copy of {role[v]}')
+    steg = emn.lookup(ls, step)
+    if steg.kind != 'S':
+        raise Unsupported('step length kind')
+    out.append(vdef('gen_steg', steg, order))
+    # ---- line search body
+    if not (isinstance(ls.iter, ast.Call) and fname(ls.iter) == 'range' and len(ls.iter.args) == 1):
+        raise Unsupported('line search range')
+    out.append(vdef('gen_ls_fuel', emn.asN(emn.tr(ls.iter.args[0])), order))
+    eml = VecEmitter(emn.env)
+    eml.env[step] = Val('steg', 'S', ['steg'])
+    for v in L:
+        val = eml.tr(upd[v])
+        if val.kind != RES_KINDS[role[v]]:
+            raise Unsupported('line search update kind')
+        out.append(vdef('gen_new_' + role[v], val, order))
     rest = lb[k:]
     if len(rest) != 3:
         raise Unsupported('line search tail')
-    if not (isinstance(rest[0], ast.Assign) and ast.unparse(rest[0].targets[0]) == 'residu'):
+    if not (isinstance(rest[0], ast.Assign) and isinstance(rest[0].value, ast.Call) and fname(rest[0].value) == 'residual'
+            and isinstance(rest[0].targets[0], ast.Name)):
         raise Unsupported('line search residual')
-    check_residual_call(rest[0].value)
+    rname = rest[0].targets[0].id
     t = rest[1]
     if not (isinstance(t, ast.If) and len(t.body) == 1 and isinstance(t.body[0], ast.Break) and not t.orelse and
-            isinstance(t.test, ast.Compare) and ast.unparse(t.test.left) == 'np.linalg.norm(residu)'):
+            isinstance(t.test, ast.Compare) and ast.unparse(t.test.left) == f'np.linalg.norm({rname})'):
         raise Unsupported('line search acceptance test')
-    em.env['normnew'] = Val('normnew', 'S', ['normnew'])
-    tst = ast.Compare(left=ast.Name(id='normnew'), ops=t.test.ops, comparators=t.test.comparators)
-    out.append(vdef('gen_ls_accept', em.tr(tst), order))
-    if not (isinstance(rest[2], ast.AugAssign) and ast.unparse(rest[2].target) == 'steg' and isinstance(rest[2].op, ast.Div)):
+    eml.env['__normnew'] = Val('normnew', 'S', ['normnew'])
+    tst = ast.Compare(left=ast.Name(id='__normnew', ctx=ast.Load()), ops=t.test.ops, comparators=t.test.comparators)
+    out.append(vdef('gen_ls_accept', eml.tr(tst), order))
+    h = rest[2]
+    if isinstance(h, ast.AugAssign) and isinstance(h.target, ast.Name) and h.target.id == step and type(h.op) in BIN:
+        out.append(vdef('gen_steg_next', eml.binop(h, BIN[type(h.op)], eml.env[step], eml.tr(h.value)), order))
+    elif isinstance(h, ast.Assign) and isinstance(h.targets[0], ast.Name) and h.targets[0].id == step:
+        out.append(vdef('gen_steg_next', eml.tr(h.value), order))
+    else:
         raise Unsupported('step halving')
-    out.append(vdef('gen_steg_next', em.binop(rest[2], 'ndiv', em.env['steg'], em.tr(rest[2].value)), order))
-    after = ib[k_ls + 1:]
-    if [ast.unparse(s) for s in after] != ['residunorm = np.linalg.norm(residu)', 'residumax = np.max(np.abs(residu))']:
-        raise Unsupported('inner loop epilogue')
+    # ---- epilogue: the loop test sees the residual of the new point
+    eme = VecEmitter(em.env)
+    eme.env[rname] = Val('residu', 'V', ['residu'])
+    residual_block(epilogue, eme, 'inner loop epilogue')
+    eme.env[counter] = Val('ittt', 'N', ['ittt'])
+    inner_test_epi = eme.tr(inner.test)
+    if inner_test_epi.text != inner_test_pro.text:
+        raise Unsupported('inner loop test sees different quantities on entry and after a Newton step')
+    out.append(vdef('gen_inner_test', inner_test_pro, order))
 
 
 HEADER = '''(* GENERATED by tools/gen_C10.py from pymoto/common/mma.py -- do not edit *)
